@@ -1,6 +1,6 @@
 SPECIFICATION Spec
 CONSTANTS
-  Chars = {"/", "a", "b", "A"}
+  Chars = {"/", "a", "b", "A", " "}
   UpperChars = {"A"}
   MaxText = @MaxText@
   MaxCmd = @MaxCmd@
